@@ -92,3 +92,26 @@ class ScriptedQueue:
             n += 1
             j += 1
         return n
+
+
+def bind_clock(module, clock):
+    """Bind the virtual clock into `module` under every name through which it reads time (`time` module object,
+    `perf_counter`, `monotonic`).  Returns (restore, n_bound).  If the module reads no clock at all (n_bound == 0) the
+    scripted queue alone carries virtual time, which is still exact for code that only uses relative timeouts."""
+    import types
+
+    saved = []
+    for name in ('perf_counter', 'monotonic'):
+        if callable(getattr(module, name, None)):
+            saved.append((name, getattr(module, name)))
+            setattr(module, name, getattr(clock, name))
+    t = getattr(module, 'time', None)
+    if isinstance(t, (types.ModuleType, VClock)):
+        saved.append(('time', t))
+        module.time = clock
+
+    def restore():
+        for name, old in saved:
+            setattr(module, name, old)
+
+    return restore, len(saved)
